@@ -51,6 +51,7 @@ package client
 //@   on return assert looks-up-this-file: called(sts.FileCache.Get) ==> lastarg(sts.FileCache.Get, 1) == file.GetName() && cached == lastret(sts.FileCache.Get, 0)
 
 //@ func (*Broker).startValidate
+//@   loop 0 backedge assert a-received-file-enters-the-poll-list-once: sent == nil
 //@   before call (*Broker).finish assert finish-only-with-verdict: arg1.NotFound() ==> has(poll, arg1.GetName()) && poll[arg1.GetName()].polled == broker.Conf.PollAttempts
 //@   before call (*Broker).finish assert finish-answers-of-this-poll: called(Validator) && lastret(Validator, 1) == nil
 
